@@ -133,6 +133,12 @@ struct Event { int curr, last; std::string path; bool has_val; size_t val_len; s
 struct Recorder {
   std::vector<Event> ev;
   size_t refuse_at = 0;  // 1-based index of the event the handler refuses (0 = never)
+  // nested parsing: while handling an element the handler runs a complete second parse (what a handler does that resolves
+  // an "include" option), then looks at the path and value it was called with again
+  bool nest = false;
+  size_t nested = 0;
+  std::string nest_fault;
+  void inner_parse();
   static int save(void *ctx, const path *p, const value *v, int last, int curr) {
     Recorder *r = (Recorder *)ctx;
     Event e;
@@ -147,10 +153,52 @@ struct Recorder {
       if (vec->iov_base && vec->iov_len) e.val.assign((const char *)vec->iov_base, vec->iov_len);
     }
     r->ev.push_back(e);
+    if (r->nest && r->nested < 6 && r->nest_fault.empty()) {
+      const struct iovec *vec = v ? (const struct iovec *)v->_addr : 0;
+      const char *base = p->base;
+      size_t off = p->off, len = p->len;
+      const void *vbase = vec ? vec->iov_base : 0;
+      size_t vlen = vec ? vec->iov_len : 0;
+      int vtype = v ? (int)v->_type : 0;
+      ++r->nested;
+      r->inner_parse();
+      // what the handler was called with must still be what it is looking at (no throw here: library frames above)
+      char b[200];
+      const struct iovec *vec2 = v ? (const struct iovec *)v->_addr : 0;
+      if (p->base != base || p->off != off || p->len != len) r->nest_fault = "the path descriptor changed during the nested parse";
+      else if (vec2 != vec || (v && (int)v->_type != vtype)) r->nest_fault = "the value descriptor changed during the nested parse";
+      else if (vec && (vec->iov_base != vbase || vec->iov_len != vlen)) {
+        snprintf(b, sizeof b, "the value of element %zu was %zu bytes at %p before the nested parse and is %zu bytes at %p after it", r->ev.size(), vlen, vbase, vec->iov_len, vec->iov_base);
+        r->nest_fault = b;
+      }
+      else if (len && memcmp(base + off, e.path.data(), len)) r->nest_fault = "the path bytes changed during the nested parse";
+      else if (vlen && memcmp(vbase, e.val.data(), vlen)) r->nest_fault = "the value bytes changed during the nested parse";
+    }
     if (r->refuse_at && r->ev.size() == r->refuse_at) return -1;
     return 0;
   }
 };
+void Recorder::inner_parse() {
+  static const std::string text = "in {\n a = 1\n}\nlast = the inner value\n";
+  Source src(text);
+  CObj<parser_context> pc;
+  src.bind(pc);
+  pc->name.sect = pc->name.opt = 0xff;
+  if (nested & 1) {  // mpt_parse_config with its own context and path, default format
+    CObj<parser_format> pf;
+    mpt_parse_format(pf, 0);
+    pc->prev = (uint8_t)parser_context::Section;
+    Recorder inner;
+    int r = mpt_parse_config((input_parser_t)mpt_parse_format_pre, pf.get(), pc, Recorder::save, &inner);
+    if (r != 0 || inner.ev.size() != 4) nest_fault = "the nested mpt_parse_config did not deliver its four elements";
+  } else {  // mpt_parse_node into a scratch node
+    Root scratch;
+    int r = mpt_parse_node(scratch.get(), pc, 0);
+    std::vector<Node> t;
+    read_list(scratch.get()->children, t);
+    if (r != 0 || count_nodes(t) != 3 || t.back().value != "the inner value") nest_fault = "the nested mpt_parse_node did not deliver its tree";
+  }
+}
 struct NextCtx {
   input_parser_t fn;
   void *fmt;
@@ -232,9 +280,39 @@ static void run_config(Ctx &c, const Fmt &f, Flags fl, const std::string &doc, l
   Recorder rec;
   if (c.chance(40)) rec.refuse_at = c.range(1, 6);
   NextCtx nx = {fn, pf.get(), &src, 0};
+  // a quarter of the cases (chosen by the text length: no draw, older cases keep their meaning) parse with a handler that
+  // runs a nested parse at the first six elements
+  rec.nest = doc.size() % 4 == 1;
+  size_t line0 = pc->src.line;
+  uint8_t prev0 = pc->prev;
   int r = mpt_parse_config(NextCtx::next, &nx, pc, Recorder::save, &rec);
-  c.logf("mpt_parse_config=%d line=%zu events=%zu element-parser calls=%zu refuse_at=%zu", r, (size_t)pc->src.line, rec.ev.size(), nx.entries, rec.refuse_at);
+  c.logf("mpt_parse_config=%d line=%zu events=%zu element-parser calls=%zu refuse_at=%zu nested parses=%zu", r, (size_t)pc->src.line, rec.ev.size(), nx.entries, rec.refuse_at, rec.nested);
   check_getc(c, src, true);
+  if (rec.nest) {
+    c.label("config:nested-parse-in-handler");
+    VP_CHECK(c, rec.nest_fault.empty(), "nested-parse", "handler with a nested parse: %s", rec.nest_fault.c_str());
+    // the outer parse must not notice: same result and elements as the same text without nesting
+    Source src2(doc);
+    src2.error_at = error_at;
+    CObj<parser_context> pc2;
+    src2.bind(pc2);
+    pc2->name.sect = fl.sect;
+    pc2->name.opt = fl.opt;
+    pc2->src.line = line0;
+    pc2->prev = prev0;
+    Recorder plain;
+    plain.refuse_at = rec.refuse_at;
+    NextCtx nx2 = {fn, pf.get(), &src2, 0};
+    int r2 = mpt_parse_config(NextCtx::next, &nx2, pc2, Recorder::save, &plain);
+    VP_CHECK(c, r == r2 && rec.ev.size() == plain.ev.size(), "nested-parse", "with nested parses in the handler: %d / %zu elements, without: %d / %zu elements", r, rec.ev.size(), r2, plain.ev.size());
+    for (size_t i = 0; i < plain.ev.size(); i++) {
+      const Event &a = rec.ev[i], &b = plain.ev[i];
+      VP_CHECK(c, a.curr == b.curr && a.last == b.last && a.path == b.path && a.has_val == b.has_val && a.val == b.val, "nested-parse",
+               "element %zu differs between the parse with nested parses in the handler (code %x path '%s' value '%s') and the plain one (code %x path '%s' value '%s')", i + 1,
+               a.curr, brief(a.path, 40).c_str(), brief(a.val, 40).c_str(), b.curr, brief(b.path, 40).c_str(), brief(b.val, 40).c_str());
+    }
+    if (rec.nested) c.label("config:nested-parse-ran");
+  }
   size_t maxdepth = 0;
   if (r >= 0) {
     VP_CHECK(c, !rec.refuse_at || rec.ev.size() < rec.refuse_at, "refusal-ignored", "handler refused event %zu but mpt_parse_config returned %d", rec.refuse_at, r);
@@ -964,6 +1042,7 @@ static void run_cxx(Ctx &c) {
   mpt::node to[2];
   std::vector<Node> have[2];
   int cur = -1;        // file the parser reads from
+  bool closed = false; // open(nullptr) was the last open call
   bool fresh = false;  // positioned at the start of that file
   bool at_end = false; // the last read consumed the file completely and succeeded
   size_t fresh_ok = 0, nops = 0, failed_on_populated = 0;
@@ -985,6 +1064,31 @@ static void run_cxx(Ctx &c) {
         c_reference(empty, dc.p);
         c.label("cxx:set_format-accepted");
       } else { ++refused; c.label("cxx:set_format-refused"); }
+      continue;
+    }
+    if (!first && (ob & 0x70) == 0x50) {
+      // open(nullptr) closes the input: the next read has to say so (mpt::layout::open() passes its argument through)
+      bool ok = parse.open(0);
+      if (use_twin) twin.open(0);
+      c.logf("  open(nullptr) = %d", ok);
+      VP_CHECK(c, ok, "cxx-open", "config_parser::open(nullptr) failed");
+      cur = -1;
+      closed = true;
+      fresh = at_end = false;
+      c.label("cxx:open-null");
+      continue;
+    }
+    if (op == 0 && cur < 0 && closed) {
+      int k = ob >> 7;
+      std::vector<const node *> before, after;
+      { std::vector<Node> tmp; read_list(to[k].children, tmp, &before); }
+      int r = parse.read(to[k], 0);
+      if (use_twin) twin.read(twin_to[k], 0);
+      { std::vector<Node> tmp; read_list(to[k].children, tmp, &after); }
+      c.logf("  read(target %d) = %d   [no input]", k, r);
+      VP_CHECK(c, r < 0, "cxx-read-without-input", "config_parser::read = %d after open(nullptr)", r);
+      VP_CHECK(c, before == after, "cxx-failed-read-changed-target", "config_parser::read=%d without input but the target node changed", r);
+      c.label("cxx:read-without-input");
       continue;
     }
     if (op == 0 && cur >= 0) {
@@ -1046,6 +1150,7 @@ static void run_cxx(Ctx &c) {
       c.logf("  open(file %c) = %d", 'A' + k, ok);
       VP_CHECK(c, ok, "cxx-open", "config_parser::open failed on an existing file");
       cur = k;
+      closed = false;
       fresh = true;
       at_end = false;
       c.label("cxx:open");
